@@ -533,7 +533,7 @@ def _run_fit_grid(obs):
     obs.sample = {"kind": "fit_grid", "fits": n, "witness_shape": "batt_cap_fn(0.0111, 2, 208, 5)"}
 
 
-def run_case(case, obs):
+def _run_case_inner(case, obs):
     k = case["kind"]
     if k == "docs":
         _run_docs(case, obs)
@@ -554,3 +554,19 @@ def classify(v):
         if cfg.get("bp") == "fit" and "sessions_per_day" in cfg:
             return "stochastic_capacity_fn_stay_in_hours"
     return None
+
+
+PROC_TZS = [None, None, "America/Los_Angeles", "Asia/Kolkata", "Pacific/Auckland", "Europe/Berlin"]
+
+
+def run_case(case, obs):
+    # the interpreter's own local time zone varies from case to case: nothing about aware datetimes may depend on it
+    from vlib import env as _env
+    import zlib
+    tzn = PROC_TZS[zlib.crc32(repr(sorted(case.items())).encode()) % len(PROC_TZS)]
+    _env.set_process_tz(tzn)
+    obs.ev("process_time_zone:" + str(tzn))
+    try:
+        return _run_case_inner(case, obs)
+    finally:
+        _env.set_process_tz(None)
